@@ -1,5 +1,11 @@
 # id -> (technique, level_claimed.text, design_ref)
 CLAIMED = {
+    "C03": (
+        "sparse conditional constant propagation over go/ssa in the end-of-input steady state (interprocedural summaries, abstract field contents, abstract loop iteration until no back edge is executable); the Go compiler's prove pass as bounds oracle (check_bce residual) combined with linear-bounds proofs and a justified table; taint rule from strconv.ParseInt to allocation sizes with positive/negative controls; exact-domain analysis of the partition range checks",
+        "Decides statically the termination and no-panic clauses of C03 for the FASTA, Phylip, Nexus, Clustal, Stockholm and partition lexers/parsers, for every byte string: (1) each of the 6 lexers returns its EOF token once ReadRune fails, and every loop that consumes input (41 on this tree) is left within at most 5 abstract iterations after the input is exhausted "
+        "(so no truncated file, unterminated comment or markup line at end of file can make a parser loop forever); all other loops are range or counter loops; (2) every index/slice expression in parser scope (114 functions + the partition table functions) is proven in bounds by the compiler's prove pass, or by the linear-bounds engine, or carries a recorded justification (13 residual sites, each with its reason); "
+        "PartitionSet.AddRange accepts exactly 0<=start, end<=length-1, modulo>=1 and its table indices are in bounds; (3) no allocation in parser scope is sized by a number parsed from the file without a constant upper bound. NOT decided: that success is never an empty/ragged alignment or one contradicting the header counts, duplicate names, a scan/unscan loop that re-reads one pushed-back non-EOF token without progress, panics other than index/slice/allocation (nil dereference, integer conversion).",
+        "DESIGN.md §3 C03"),
     "C07": (
         "NaN-successor analysis of float comparisons in the Distance methods (IEEE semantics on go/ssa), mirrored-store pairing for the result matrix, branch-shape rules for the replacement condition and running maximum, constant-table evaluation of the nucleotide masks, sibling agreement of the seven models, weight-linearity value-flow rule for the pairwise counters",
         "Decides statically the undefined-value, matrix-shape, table and weighting clauses of C07 for all seven models and every alignment: no Distance method turns a NaN estimator (saturated pair) into a constant - for each branch on a value derived from math.Log/Pow/division the successor taken by NaN must not return a float constant; "
